@@ -36,6 +36,7 @@ type HistOpts struct {
 	NoHuge     bool
 	NoHeader   bool
 	Standalone bool
+	Twins      bool // may add a second live test with the SAME name on other files (package p and p_test both declaring TestX)
 }
 
 func yamlValid(s string) bool {
@@ -257,6 +258,27 @@ func GenHistory(r *rand.Rand, o HistOpts) History {
 	if nt > 1 && r.IntN(2) == 0 {
 		h.Interleave = true
 		h.Classes["interleaved-tests"] = true
+	}
+	if o.Twins && r.IntN(6) == 0 {
+		// test names are unique per package only: `package p` and `package p_test` of one
+		// directory may both declare TestX and run in one binary. The twin uses its own files.
+		for _, tp := range h.Tests {
+			var ops []Op
+			for _, op := range tp.Ops {
+				if op.standalone() {
+					continue
+				}
+				op.File += "tw"
+				ops = append(ops, op)
+			}
+			if len(ops) >= 2 {
+				h.Tests = append(h.Tests, TestPlan{Name: tp.Name, Ops: ops, Execs: tp.Execs})
+				h.Interleave = true
+				h.Classes["interleaved-tests"] = true
+				h.Classes["two-live-tests-with-the-same-name-on-different-files"] = true
+				break
+			}
+		}
 	}
 	h.ClassList = h.Classes.List()
 	return h
